@@ -200,3 +200,36 @@ func forall(lo, hi int, f func(int) bool) bool {
 //@           forall(0, len(j.assembly.operators), func(i int) bool { return ghostRegHasOp(NodeRegistry(j.registry), j.assembly.operators[i]) })
 //@   ensures old(j.status.statusVal) <= 1 ==> j.status.statusVal == old(j.status.statusVal) || j.status.statusVal == 2
 //@   ensures (old(j.status.statusVal) <= 1 && j.status.statusVal == 2) ==> j.assembly != nil && len(j.assembly.operators) == j.registry.taskCount && len(j.assembly.sourceRunners) == j.registry.taskCount
+
+// ---- membership changes reach the registry (C15). Each handler queues one task that applies
+// exactly its own change and then re-evaluates the cluster: a source runner's deregistration
+// removes the source runner (not an operator of the same id), so the assembly is seen to be
+// incomplete and is replaced.
+//@ func Job.HandleDeregisterSourceRunner$0
+//@   property C15
+//@   nosafety
+//@   atcall DeregisterOperator: false
+//@   order evaluateClusterStatus after DeregisterSourceRunner
+//@ func Job.HandleDeregisterOperator$0
+//@   property C15
+//@   nosafety
+//@   atcall DeregisterSourceRunner: false
+//@   order evaluateClusterStatus after DeregisterOperator
+//@ func Job.HandleRegisterSourceRunner$0
+//@   property C15
+//@   nosafety
+//@   atcall RegisterOperator: false
+//@   order evaluateClusterStatus after RegisterSourceRunner
+//@ func Job.HandleRegisterOperator$0
+//@   property C15
+//@   nosafety
+//@   atcall RegisterSourceRunner: false
+//@   order evaluateClusterStatus after RegisterOperator
+
+// Every (re)start arms a NEW periodic checkpoint ticker: the previous one was stopped when the
+// assembly became unhealthy, so reusing it would end checkpointing after the first recovery.
+//@ func Job.start$2
+//@   property C15
+//@   nosafety
+//@   ensures called(Every) && called(Set)
+//@   order evaluateClusterStatus after Every
